@@ -68,7 +68,7 @@ class OtherFault(ValueError):
     pass
 
 
-FAULTS = [SerFault, OtherFault, KeyError, ZeroDivisionError]
+FAULTS = [SerFault, OtherFault, KeyError, ZeroDivisionError, StopIteration, IndexError]
 
 SERS = {
     "id": (lambda v: v, "any"),
@@ -482,7 +482,7 @@ def field_specs():
                     st.none(),
                     st.none(),
                     st.none(),
-                    st.tuples(st.just("raise"), st.integers(0, 3)).map(list),
+                    st.tuples(st.just("raise"), st.integers(0, 5)).map(list),
                     st.just(["omit"]),
                 ),
             ).map(list)
